@@ -128,6 +128,11 @@ def parseHSpec (toks : List String) : Option HSpec := do
     | "h" => some Priority.high | "m" => some .medium | "l" => some .low | _ => none
   let tid := (field toks "tid").bind String.toNat?
   let params ← (((field toks "params").getD "").splitOn ";").filter (· != "") |>.mapM parseParam
+  -- protocol rule (`HSpec.RecvFirst` of the C01 theorem, also enforced by the harness): the receiver is listed first,
+  -- a specification never starts with a fetcher-like parameter
+  match params with
+  | .fetch _ :: _ | .single _ :: _ | .trySingle _ :: _ => none
+  | _ => pure ()
   let body ← (((field toks "body").getD "").splitOn ",").filter (· != "") |>.mapM parseAct
   pure { name, prio, tid, params, body }
 
